@@ -91,6 +91,18 @@ func evalC04(c *engine.Case) engine.Verdict {
 					v.Class("resolution-error")
 				}
 			}
+			if msg := engine.ConsumedFromFailedExec(w, w.EventsSince(0)); msg != "" {
+				v.Failf("call %d: %s", call, msg)
+			}
+			for _, ob := range o.Outs {
+				if org, ok := w.Origin(ob.Tok); ok && !org.Input && o.Err == nil {
+					for _, ev := range w.EventsSince(0) {
+						if ev.Func == org.Func && ev.Exec == org.Exec && ev.Err != nil {
+							v.Failf("call %d: Call returned without error the outputs of execution #%d of f%d, which failed", call, org.Exec, org.Func)
+						}
+					}
+				}
+			}
 			if rep == 0 && call == 0 {
 				switch {
 				case failedAt >= 0 && o.Events[failedAt].Func == engine.TargetID:
